@@ -142,6 +142,25 @@ class Workspace:
         return r
 
 
+    def repl_binary(self):
+        """the interpreter's own executable built from the sources under test (dev profile): its REPL is driven over a pipe"""
+        mine = os.path.join(self.root, "ruschm_dev")
+        if os.path.exists(mine):
+            return mine
+        self.runner("dev")          # makes sure the scratch copy carries the runner's additions (same crate state for both binaries)
+        env = dict(ENV, CARGO_TARGET_DIR=os.path.join(CACHE, "target-native"), RUSTFLAGS="-Awarnings")
+        import fcntl
+        t = time.time()
+        with open(os.path.join(CACHE, "target-native.lock"), "w") as lk:
+            fcntl.flock(lk, fcntl.LOCK_EX)
+            rc, out, err = sh(["cargo", "build", "--offline", "--bin", "ruschm"], cwd=self.crate, env=env)
+            if rc != 0:
+                raise Broken("building the ruschm binary failed:\n" + err[-4000:])
+            shutil.copy2(os.path.join(CACHE, "target-native", "debug", "ruschm"), mine)
+        self.timing["repl_binary_build_s"] = round(time.time() - t, 2)
+        return mine
+
+
 class NativeRunner:
     def __init__(self, exe):
         self.exe = exe
@@ -380,6 +399,13 @@ class Check:
                 reg_preds.append(eval(f["region"], {"__builtins__": {}}, ns))
             except Exception as e:
                 raise Broken("known finding %s: region does not evaluate in %s/%s: %s" % (f["id"], unit, name, e))
+        if not regs and pre is None and not witness and z3.is_true(z3.simplify(post)):
+            # the postcondition is syntactically true on this path (e.g. "the submitted text is the accumulated text" where both
+            # are the same terms): nothing for the solver to decide; the path itself was found feasible by the executor
+            self.discharged += 1
+            u["discharged"] += 1
+            u["trivial"] = u.get("trivial", 0) + 1
+            return "holds"
         ctx.push()
         if pre is not None:
             ctx.add(pre)
